@@ -73,6 +73,18 @@ impl World {
     }
 
     /// one user transaction asking the clock: two get_current_time and all compare_current_time queries
+    /// the instant of a query: relative to the run's base (`i`), or absolute as a big integer `big` = {s, l: limbs base 10^4}
+    fn instant_of(&self, q: &Value) -> i64 {
+        if let Some(big) = q.get("big") {
+            let mut v: i128 = 0;
+            for limb in big["l"].as_array().unwrap().iter().rev() {
+                v = v * 10_000 + limb.as_i64().unwrap() as i128;
+            }
+            let v = v * big["s"].as_i64().unwrap() as i128;
+            return i64::try_from(v).expect("harness: far instant outside i64");
+        }
+        self.base_min * 60 + q["i"].as_i64().unwrap()
+    }
     fn ask(&mut self, queries: &[Value]) -> Result<(i64, i64, Vec<bool>), String> {
         let prec = |p: &str| if p == "Minute" { TimePrecision::Minute } else { TimePrecision::Second };
         let mut b = ManifestBuilder::new()
@@ -90,7 +102,7 @@ impl World {
             b = b.call_method(
                 CONSENSUS_MANAGER,
                 CONSENSUS_MANAGER_COMPARE_CURRENT_TIME_IDENT,
-                ConsensusManagerCompareCurrentTimeInputV2 { instant: Instant::new(self.base_min * 60 + q["i"].as_i64().unwrap()), precision: prec(q["prec"].as_str().unwrap()), operator: op },
+                ConsensusManagerCompareCurrentTimeInputV2 { instant: Instant::new(self.instant_of(q)), precision: prec(q["prec"].as_str().unwrap()), operator: op },
             );
         }
         let receipt = self.ledger.execute_manifest(b.build(), vec![]);
@@ -163,7 +175,11 @@ fn replay(args: &Args) {
             continue;
         }
         // the clock as components see it
-        let queries = b["queries"].as_array().unwrap();
+        let mut queries = b["queries"].as_array().unwrap().clone();
+        if let Some(far) = b.get("farq").and_then(|f| f.as_array()) {
+            queries.extend(far.iter().cloned());
+        }
+        let queries = &queries;
         steps += 1;
         match catch(|| w.ask(queries)) {
             Ok(Ok((m, s, answers))) => {
